@@ -12,7 +12,9 @@ package control
 // handler* of the descriptor (the code path a real connection takes), which decodes it and
 // calls the real Server.  Dependencies (HealthChecker, NotaryManager) are recording fakes.
 //
-// Oracle (written from the statement, independent of sign.go): a request is *authorised* iff
+// Oracle (written from the statement, independent of sign.go and of the generated
+// StableMarshal/ReadSignedData code; the body bytes are the standard protobuf encoding of the
+// body field as the request carries it): a request is *authorised* iff
 // its signature field names a key that is byte-equal to the compressed encoding of one of the
 // administrator keys configured for the server it is sent to AND the signature verifies with
 // the Go standard library (ECDSA P-256 over SHA-512 of the body bytes) under that key.
@@ -51,6 +53,7 @@ import (
 	irctl "github.com/nspcc-dev/neofs-node/pkg/services/control/ir"
 	"google.golang.org/grpc"
 	"google.golang.org/protobuf/proto"
+	"google.golang.org/protobuf/reflect/protoreflect"
 )
 
 // ---- independent crypto helpers (standard library only) ---------------------------------
@@ -226,12 +229,153 @@ type vf32Ctx struct {
 	replaySrc string     // RPC the credential replayed by the last vf32Forge call was accepted on
 }
 
+// vf32BodyField is the body sub-message field of a request message (nil: the request type has none).
+func vf32BodyField(m vf32Msg) protoreflect.FieldDescriptor {
+	fd := m.ProtoReflect().Descriptor().Fields().ByName("body")
+	if fd == nil || fd.Message() == nil || fd.IsList() || fd.IsMap() {
+		return nil
+	}
+	return fd
+}
+
+// vf32Body returns the bytes of the body the request carries: the standard (deterministic)
+// protobuf encoding of its body field, produced by the reflection-based codec - independent of
+// the repository's generated StableMarshal/ReadSignedData, whose output is what the server
+// verifies signatures over and therefore belongs to the code under test.
 func vf32Body(m vf32Msg) []byte {
-	b, err := m.ReadSignedData(nil)
+	fd := vf32BodyField(m)
+	if fd == nil || !m.ProtoReflect().Has(fd) {
+		return nil
+	}
+	b, err := proto.MarshalOptions{Deterministic: true}.Marshal(m.ProtoReflect().Get(fd).Message().Interface())
 	if err != nil {
-		panic("vf32: ReadSignedData: " + err.Error())
+		panic("vf32: marshal body: " + err.Error())
 	}
 	return b
+}
+
+// vf32BodyFields names the fields of the request's body message (from the message descriptor, so
+// that a field added later is covered without touching the harness).
+func vf32BodyFields(m vf32Msg) []string {
+	fd := vf32BodyField(m)
+	if fd == nil {
+		return nil
+	}
+	var out []string
+	fs := fd.Message().Fields()
+	for i := 0; i < fs.Len(); i++ {
+		if !fs.Get(i).IsMap() {
+			out = append(out, string(fs.Get(i).Name()))
+		}
+	}
+	return out
+}
+
+// vf32Changed returns a value of the field's scalar kind that differs from cur.
+func vf32Changed(fd protoreflect.FieldDescriptor, cur protoreflect.Value, rng *rand.Rand) (protoreflect.Value, bool) {
+	switch fd.Kind() {
+	case protoreflect.BoolKind:
+		return protoreflect.ValueOfBool(!cur.Bool()), true
+	case protoreflect.EnumKind:
+		vals := fd.Enum().Values()
+		for i, o := 0, rng.IntN(vals.Len()); i < vals.Len(); i++ {
+			if n := vals.Get((i + o) % vals.Len()).Number(); n != cur.Enum() {
+				return protoreflect.ValueOfEnum(n), true
+			}
+		}
+		return protoreflect.ValueOfEnum(cur.Enum() + 1), true
+	case protoreflect.StringKind:
+		return protoreflect.ValueOfString(cur.String() + "~"), true
+	case protoreflect.BytesKind:
+		b := bytes.Clone(cur.Bytes())
+		if len(b) == 0 {
+			b = verifkit.RandBytes(rng, 8)
+		} else {
+			b[rng.IntN(len(b))] ^= 1 << rng.IntN(8)
+		}
+		return protoreflect.ValueOfBytes(b), true
+	case protoreflect.Int32Kind, protoreflect.Sint32Kind, protoreflect.Sfixed32Kind:
+		return protoreflect.ValueOfInt32(int32(cur.Int()) + 1), true
+	case protoreflect.Int64Kind, protoreflect.Sint64Kind, protoreflect.Sfixed64Kind:
+		return protoreflect.ValueOfInt64(cur.Int() + 1), true
+	case protoreflect.Uint32Kind, protoreflect.Fixed32Kind:
+		return protoreflect.ValueOfUint32(uint32(cur.Uint()) + 1), true
+	case protoreflect.Uint64Kind, protoreflect.Fixed64Kind:
+		return protoreflect.ValueOfUint64(cur.Uint() + 1), true
+	case protoreflect.FloatKind:
+		return protoreflect.ValueOfFloat32(float32(cur.Float()) + 1), true
+	case protoreflect.DoubleKind:
+		return protoreflect.ValueOfFloat64(cur.Float() + 1), true
+	}
+	return protoreflect.Value{}, false
+}
+
+// vf32Tamper changes exactly one field of the request's body in place (singular: another value /
+// set <-> unset; repeated: an element appended, altered or removed); ok=false when the carried
+// body bytes did not change.
+func vf32Tamper(m vf32Msg, field string, rng *rand.Rand) bool {
+	bf := vf32BodyField(m)
+	if bf == nil {
+		return false
+	}
+	before := vf32Body(m)
+	// work on a deep copy: the drivers' body constructors may share slices between the messages they return
+	m.ProtoReflect().Set(bf, protoreflect.ValueOfMessage(proto.Clone(m.ProtoReflect().Mutable(bf).Message().Interface()).ProtoReflect()))
+	body := m.ProtoReflect().Mutable(bf).Message()
+	fd := body.Descriptor().Fields().ByName(protoreflect.Name(field))
+	switch {
+	case fd == nil || fd.IsMap():
+		return false
+	case fd.IsList():
+		l := body.Mutable(fd).List()
+		isMsg := fd.Kind() == protoreflect.MessageKind || fd.Kind() == protoreflect.GroupKind
+		op := rng.IntN(3)
+		if l.Len() == 0 || (isMsg && op == 1) {
+			op = 0
+		}
+		switch op {
+		case 0: // one more element
+			if isMsg {
+				l.Append(l.NewElement())
+				break
+			}
+			cur := l.NewElement()
+			if l.Len() > 0 {
+				cur = l.Get(rng.IntN(l.Len()))
+			}
+			nv, ok := vf32Changed(fd, cur, rng)
+			if !ok {
+				return false
+			}
+			l.Append(nv)
+		case 1: // one element altered
+			i := rng.IntN(l.Len())
+			nv, ok := vf32Changed(fd, l.Get(i), rng)
+			if !ok {
+				return false
+			}
+			l.Set(i, nv)
+		case 2: // one element removed
+			i := rng.IntN(l.Len())
+			for ; i+1 < l.Len(); i++ {
+				l.Set(i, l.Get(i+1))
+			}
+			l.Truncate(l.Len() - 1)
+		}
+	case fd.Kind() == protoreflect.MessageKind || fd.Kind() == protoreflect.GroupKind:
+		if body.Has(fd) {
+			body.Clear(fd)
+		} else {
+			body.Mutable(fd)
+		}
+	default:
+		nv, ok := vf32Changed(fd, body.Get(fd), rng)
+		if !ok {
+			return false
+		}
+		body.Set(fd, nv)
+	}
+	return !bytes.Equal(before, vf32Body(m))
 }
 
 // vf32Forge builds the request of one credential mode; ok=false when the mode does not apply.
@@ -256,7 +400,33 @@ func vf32Forge(mode string, v vf32Variant, c *vf32Ctx, rng *rand.Rand) (vf32Msg,
 		}
 		return l
 	}
+	if f, ok := strings.CutPrefix(mode, "tamper:"); ok { // an administrator signs the body as generated; afterwards one field of it is changed
+		s := vf32Sign(admin, body)
+		if !vf32Tamper(m, f, rng) {
+			return nil, false
+		}
+		set(vf32Pub(admin), s)
+		return m, true
+	}
+	if f, ok := strings.CutPrefix(mode, "tamper-back:"); ok { // signed with one field different, sent as generated (the effective body)
+		t := v.mk()
+		if !vf32Tamper(t, f, rng) {
+			return nil, false
+		}
+		set(vf32Pub(admin), vf32Sign(admin, vf32Body(t)))
+		return m, true
+	}
 	switch mode {
+	case "replay-own-tamper": // the credential this body has just been accepted with, on the same body with one seeded field changed
+		fs := vf32BodyFields(m)
+		if len(fs) == 0 || len(c.accepted) == 0 {
+			return nil, false
+		}
+		cr := c.accepted[len(c.accepted)-1]
+		if !bytes.Equal(cr.body, body) || !vf32Tamper(m, fs[rng.IntN(len(fs))], rng) {
+			return nil, false
+		}
+		replay(cr)
 	case "replay-first": // the very first credential the server accepted (the monitoring health check)
 		if len(c.accepted) == 0 || bytes.Equal(c.accepted[0].body, body) {
 			return nil, false
@@ -399,7 +569,7 @@ func vf32IsNil(v any) bool {
 func TestVerif_C32_IR(t *testing.T) {
 	r := verifkit.Start(t, "C32", "exploration")
 	defer r.Finish()
-	r.SetRule("IR control server: RPC inventory from the generated gRPC service descriptor + server interface (reflection); per round a fresh Server with 1-3 seeded administrator keys (sometimes plus non-key entries) and recording HealthChecker/NotaryManager; every RPC x body variant x credential mode (no signature, empty signature, stranger key, admin key with stranger's signature, admin signature over another body / extended body / whole request / empty data, flipped / truncated / empty / zero signature, non-key list entry, valid signature of administrators of another server, credential of an earlier authorised request of this server instance - first (a priming health check) / latest / random / the one this body was just accepted with - replayed on this or the alternative body, stateless modes repeated right after the body was accepted, correct) goes through the generated handler as wire bytes; distinct = (RPC, body variant class, mode, number of admin keys); non-trivial = the same body was shown to reach the dependency under a correct signature")
+	r.SetRule("IR control server: RPC inventory from the generated gRPC service descriptor + server interface (reflection); per round a fresh Server with 1-3 seeded administrator keys (sometimes plus non-key entries) and recording HealthChecker/NotaryManager; every RPC x body variant x credential mode (no signature, empty signature, stranger key, admin key with stranger's signature, admin signature over another body / extended body / whole request / empty data, flipped / truncated / empty / zero signature, non-key list entry, valid signature of administrators of another server, credential of an earlier authorised request of this server instance - first (a priming health check) / latest / random / the one this body was just accepted with - replayed on this or the alternative body, stateless modes repeated right after the body was accepted, every single field of the body message (from its descriptor) changed after an administrator signed the body / the body sent as generated under a signature over the body with that field changed / the just accepted credential on the body with one field changed, correct) goes through the generated handler as wire bytes; distinct = (RPC, body variant class, mode, number of admin keys); non-trivial = the same body was shown to reach the dependency under a correct signature")
 	r.Assume("dependencies of the IR control server are recording fakes; the server's own key (appended to the white list by New, documented) is not used as a credential")
 
 	inv := vf32Inventory(r)
@@ -479,10 +649,16 @@ func TestVerif_C32_IR(t *testing.T) {
 			}
 			for _, v := range drv(rng) {
 				modes := append([]string(nil), vf32NegModes...)
+				// "valid key, corrupted body", field by field: every field of the body message is
+				// changed after signing (tamper) and before signing (tamper-back, the body as generated is sent)
+				for _, f := range vf32BodyFields(v.mk()) {
+					modes = append(modes, "tamper:"+f, "tamper-back:"+f)
+				}
 				rng.Shuffle(len(modes), func(i, j int) { modes[i], modes[j] = modes[j], modes[i] })
-				// positive control, then: its credential on the alternative body, and a seeded
-				// subset of the stateless modes again on the body that has just been accepted
-				modes = append(modes, "valid", "replay-own")
+				// positive control, then: its credential on the alternative body and on the same body
+				// with one field changed, and a seeded subset of the stateless modes again on the
+				// body that has just been accepted
+				modes = append(modes, "valid", "replay-own", "replay-own-tamper")
 				for _, i := range rng.Perm(len(vf32AfterModes))[:2] {
 					modes = append(modes, vf32AfterModes[i]+vf32AfterSuffix)
 				}
@@ -513,6 +689,12 @@ func TestVerif_C32_IR(t *testing.T) {
 					if err != nil {
 						r.Inconclusive("harness: marshal request: " + err.Error())
 						continue
+					}
+					// observation only (no verdict): does the repository's signed-data serialisation of
+					// this request equal the body bytes it carries?
+					if sd, err := req.ReadSignedData(nil); err != nil || !bytes.Equal(sd, vf32Body(req)) {
+						r.Count("ir_requests_whose_ReadSignedData_differs_from_carried_body", 1)
+						r.Seen("ir_rpcs_whose_ReadSignedData_differs_from_carried_body", md.MethodName)
 					}
 					desc := map[string]any{"server": "ir", "round": round, "rpc": md.MethodName, "variant": v.name, "mode": mode, "admins": len(c.admins), "garbage_entries": len(c.garbage), "wire": hex.EncodeToString(wire), "authorised_requests_served_before": len(c.accepted)}
 					if c.replaySrc != "" {
@@ -585,6 +767,12 @@ func TestVerif_C32_IR(t *testing.T) {
 					if strings.HasSuffix(mode, vf32AfterSuffix) {
 						r.Count("ir_unauthorised_calls_right_after_accept_of_same_body", 1)
 					}
+					if strings.Contains(mode, "tamper") {
+						r.Count("ir_single_field_tamper_calls", 1)
+						if i := strings.IndexByte(mode, ':'); i >= 0 && strings.HasPrefix(mode, "tamper") {
+							r.Seen("ir_body_fields_tampered", md.MethodName+"."+mode[i+1:])
+						}
+					}
 					if !bad {
 						r.Count("ir_unauthorised_rejected_clean", 1)
 						dk := fmt.Sprintf("ir|%s|%s|%s|%d", md.MethodName, strings.SplitN(v.name, ",", 2)[0], mode, len(c.admins))
@@ -617,6 +805,9 @@ func TestVerif_C32_IR(t *testing.T) {
 	}
 	if r.Counter("ir_authorised_reached_dependency") == 0 {
 		r.Inconclusive("no positive control reached a dependency")
+	}
+	if r.Counter("ir_single_field_tamper_calls") == 0 {
+		r.Inconclusive("no request with a single body field changed after/before signing was executed: the corrupted-body part of the check is vacuous")
 	}
 	if r.Counter("ir_replayed_credential_calls_cross_rpc") == 0 || r.Counter("ir_unauthorised_calls_right_after_accept_of_same_body") == 0 {
 		r.Inconclusive("no credential of an earlier authorised request was replayed on another RPC, or no unauthorised request followed the acceptance of its body: the history-dependent part of the check is vacuous")
